@@ -93,6 +93,11 @@ int main(int argc, char **argv) {
             if (!made.empty())
                 vf::violation("C02|" + op_class(opname) + "|handle returned by create* shows a different entity than a fresh handle|" + made.substr(0, made.find('|')),
                               "history " + ex::hist_str(E.alpha, p, op), made + "\nREPLAY " + rargs);
+            // ... and one read through the very handle that made the changes of this step (ops::outlive: it also stays alive while close() runs)
+            std::string mut = E.mutating_handles(post_tree);
+            if (!mut.empty())
+                vf::violation("C02|" + op_class(opname) + "|handle that made the changes shows a different entity than a fresh handle|" + mut.substr(0, mut.find('|')),
+                              "history " + ex::hist_str(E.alpha, p, op), mut + "\nREPLAY " + rargs);
             E.prepool.clear();
             vf::set_clock(E.clock0 + 500);
             // entity handles obtained in the writing session stay alive across close and reopen (as in real programs)
